@@ -473,9 +473,10 @@ nanargmax = Aggregation(
     "nanargmax",
     preprocess=argreduce_preprocess,
     chunk=("nanmax", "nanargmax"),  # order is important
-    combine=("max", "argmax"),
+    # blocks in which a group is all-NaN contribute NaN, which the combine must skip
+    combine=("nanmax", "nanargmax"),
     reduction_type="argreduce",
-    fill_value=(dtypes.NINF, 0),
+    fill_value=(dtypes.NA, 0),
     final_fill_value=-1,
     finalize=_pick_second,
     dtypes=(None, np.intp),
@@ -486,9 +487,10 @@ nanargmin = Aggregation(
     "nanargmin",
     preprocess=argreduce_preprocess,
     chunk=("nanmin", "nanargmin"),  # order is important
-    combine=("min", "argmin"),
+    # blocks in which a group is all-NaN contribute NaN, which the combine must skip
+    combine=("nanmin", "nanargmin"),
     reduction_type="argreduce",
-    fill_value=(dtypes.INF, 0),
+    fill_value=(dtypes.NA, 0),
     final_fill_value=-1,
     finalize=_pick_second,
     dtypes=(None, np.intp),
